@@ -31,9 +31,9 @@ def run():
     for fmt in ("bin", "adf", "idf", "tnd"):
         c.mc(SPEC, "MC_BinLike", f"MC_BinLike_{fmt}.cfg", workers=4)
     c.mc(SPEC, "MC_XBin", "MC_XBin.cfg", workers=4)
-    if thorough:
-        c.mc(SPEC, "MC_BinLike", "MC_BinLike_idf_2x3.cfg", workers=4, timeout=1500)
-        c.mc(SPEC, "MC_BinLike", "MC_BinLike_tnd_2x3.cfg", workers=4, timeout=1500)
+    # all pictures <= 2x3 (RoundTrip / TablesBack; the prefix-totality invariant is checked on the 2x2 configurations above)
+    c.mc(SPEC, "MC_BinLike", "MC_BinLike_idf_2x3.cfg", workers=4, timeout=1500)
+    c.mc(SPEC, "MC_BinLike", "MC_BinLike_tnd_2x3.cfg", workers=4, timeout=1500)
     g = gen()
     prefix = os.path.join(c.workdir, "trace")
     for f in glob.glob(prefix + "-*"):
@@ -54,7 +54,7 @@ def run():
         "driver_counts": summary["counts"], "tlc_generated_configurations": g["n"],
         "distinct_nontrivial": reg("r6") + reg("r7"),
     })
-    c.rule = ("R1: for every picture <= 2x2 (thorough 2x3) cells over a 4-cell alphabet and every encoding the format documents allow (IDF: any mix of literal words and repeat triples with the "
+    c.rule = ("R1: for every picture <= 2x3 cells over a 4-cell alphabet and every encoding the format documents allow (IDF: any mix of literal words and repeat triples with the "
               "escape word always escaped; Tundra: colour/position records wherever allowed) the decoders of BinLike.tla read the picture, palette and font back; XBin via MC_XBin. "
               "R2/R3: one source picture per configuration enumerated by TLC from Gen_BinFmt (XBin: palette?/font?/512?/compress?/ice? x font heights 1/8/16/32 legal per HeaderLegal, sizes 1x1..80x25; BIN modes x widths 2/80/160/510; ADF heights 1/24/25/26/201; IDF widths 1/79/80 x heights 1/24/25/26/200 x compress; Tundra widths x colour counts) plus seeded source pictures strictly inside each format's representable set (XBin blink/ice, 1-2 fonts of height 1..32, 6-bit palettes, compressed or not, widths 1..4096, heights 1..200; "
               "BIN even widths 2..510 with SAUCE; ADF width 80; IDF widths 1..80; Tundra with SAUCE, 24-bit colours, no blink) are saved with lossles_output and reloaded; "
